@@ -49,7 +49,7 @@ def classify(case):
 
 def run_k(run, tier, seed, drv):
     yr, rc, out, dt = build_yr(drv, 100 if tier == "quick" else 2400)
-    n, n_yr = (600, 60) if tier == "quick" else (6000, 700)
+    n, n_yr = (520, 50) if tier == "quick" else (6000, 700)
     args = ["--seed", seed, "--n", n]
     if yr:
         args += ["--yr", yr, "--n-yr", n_yr]
